@@ -139,7 +139,7 @@ META = dict(
         "learning rate, optimizer learning rate, continue_training().  Restart: after every prefix the in-memory file system is rolled back to that point, "
         "a fresh controller is built from the history/state files, and must load the states saved for that epoch and reproduce decisions, learning rates "
         "and recorded history entries of the uninterrupted run; a user int entry must come back as int."),
-    bounds=dict(quick="E=3 epochs (E=4 for two configurations), metrics k/4 k<=12, thresholds symbolic k/4 k<=4, patience/burn-in/cool-down in 1..2/0..1/0..1, num_epochs in {None,2,3}",
+    bounds=dict(quick="E=3 epochs (E=4 for two configurations), metrics k/4 k<=12, thresholds symbolic k/4 k<=4, patience/burn-in/cool-down in 1..2/0..2/0..1, num_epochs in {None,2,3}",
                 thorough="E=4 epochs for all combinations of patience 1..3, burn-in 0..2, cool-down 0..2, num_epochs in {None,2,4}, factor in {1/2,1/4}; E=5 for selected"),
     assumptions=[
         "metric/lr format strings replaced by a pass-through so symbolic floats survive printing; float(fmt.format(v))==v is checked concretely over the whole grid each run",
@@ -166,6 +166,7 @@ def tasks(tier):
             dict(E=3, num_epochs=3, es_pat=2, es_burn=0, rl_pat=1, rl_burn=1, rl_cool=1),
             dict(E=3, num_epochs=2, es_pat=1, es_burn=1, rl_pat=2, rl_burn=0, rl_cool=0),
             dict(E=4, num_epochs=None, es_pat=2, es_burn=1, rl_pat=2, rl_burn=0, rl_cool=1),
+            dict(E=4, num_epochs=None, es_pat=1, es_burn=2, rl_pat=1, rl_burn=2, rl_cool=0),
         ]
         for i, cb in enumerate(combos):
             ts.append(task(PROP, M_, "ControllerH", factor=0.5, thr="sym", files=(i % 2 == 1), restart=(i % 2 == 1), keep=(i == 1), nvalidate=1, **cb))
